@@ -366,8 +366,8 @@ class Hist:
                     continue
                 kwfn.append((a["aid"], self.fn_for(a["ty"], bad=rng.random() < bad_rate,
                                                    raising=rng.random() < fail_rate)))
-            if not kwfn:
-                h["fn"] = ("id",)
+            if not kwfn or rng.random() < 0.3:
+                h["fn"] = ("id",)   # a transform that hands back the object it was given
             h["kwfn"] = kwfn
         return self.add(("helper", x, (kind, None), h), ("inst", cid), fail_at)
 
